@@ -261,11 +261,17 @@ class DriverError(Exception):
 # known findings
 
 def load_findings(prop_id):
+    entries = []
     p = os.path.join(ROOT, "known_findings.json")
-    if not os.path.exists(p):
-        return []
-    data = json.load(open(p))
-    return [f for f in data.get("findings", []) if f["property"] == prop_id and f.get("status") == "finding"]
+    if os.path.exists(p):
+        entries += json.load(open(p)).get("findings", [])
+    d = os.path.join(ROOT, "findings")
+    if os.path.isdir(d):
+        for fn in sorted(os.listdir(d)):
+            if fn.endswith(".json"):
+                data = json.load(open(os.path.join(d, fn)))
+                entries += data if isinstance(data, list) else data.get("findings", [])
+    return [f for f in entries if f["property"] == prop_id and f.get("status") == "finding"]
 
 
 def match_finding(findings, line, impl, extra=None):
